@@ -107,7 +107,7 @@ def callN (B : Base) (FT : FunTable) : Nat → Nat → List B.S.V → List (ASco
   | n+1 => callBody B FT (callN B FT n) n
 
 /-- the framed reference semantics with call-nesting fuel `n` -/
-def FS (B : Base) (FT : FunTable) (n : Nat) : Sem := mkSem B (callN B FT n)
+@[reducible] def FS (B : Base) (FT : FunTable) (n : Nat) : Sem := mkSem B (callN B FT n)
 
 /-! ## The VM with frames on the value stack -/
 
